@@ -18,7 +18,13 @@ def reject_case(draw):
               "period": draw(st.sampled_from([0, 0.0, 1e-6, 0.25, 0.5, 5.0])),   # 0: a back-to-back burst
               "times": draw(st.sampled_from([0, 1, 3])),
               "deferred": draw(st.sampled_from([False, False, True]))}
-  return {"cap": cap, "tracked": tracked, "rejected": rejected,
+  # several threads ask for a timed source at the same moment while exactly one slot is free
+  callers = draw(st.sampled_from([0, 0, 2, 3]))
+  if callers:
+    tracked = tracked[:-1]
+    if rejected["period"] < 0.25 and rejected["times"] == 0:
+      rejected["times"] = 3          # (one of the callers is accepted: no endless back-to-back source)
+  return {"cap": cap, "tracked": tracked, "rejected": rejected, "callers": callers,
           "delay": draw(st.sampled_from([0.0, 0.0, 1.25, 5.0])),   # finite tracked sources may have finished
           "attempts": draw(st.integers(1, 2)), "schedule": [list(x) for x in draw(schedule_st)]}
 
@@ -33,7 +39,7 @@ class C31(Prop):
           "deferred or not, endless or 1-2 shots), then - at once or after 1.25 / 5 s, when the "
           "finite ones have finished but still occupy their slots - 1-2 further timed posts are attempted (fifo/lifo, period 0 (a back-to-back burst), 1e-6..5, "
           "times 0/1/3, deferred or not) under generated schedules, and time runs on for several "
-          "periods. Oracle: every further attempt raises ActiveObjectOutOfPostedEventResources; the "
+          "periods; in half of the cases one slot is left free and 2-3 threads ask for a timed source at the same moment (exactly one is accepted, the others are refused and never post). Oracle: every further attempt raises ActiveObjectOutOfPostedEventResources; the "
           "rejected source's event is never posted (no post invocation carrying its id, at any "
           "time); every tracked source still posts at exactly its expected instants. Non-trivial: "
           "the rejected post is not deferred (its first posting would be immediate); distinct = "
@@ -80,7 +86,24 @@ class C31(Prop):
       if case.get("delay"):
         s.sleep_until(info["t0"] + case["delay"])
       rj = case["rejected"]
-      for a in range(case["attempts"]):
+
+      def attempt(a):
+        try:
+          getattr(chart, "post_" + rj["kind"])(Event(signal=signals["VC"], payload=9000 + a),
+                                               period=rj["period"], times=rj["times"], deferred=rj["deferred"])
+          info["outcome"][a] = None
+        except ao.ActiveObjectOutOfPostedEventResources:
+          info["outcome"][a] = "ActiveObjectOutOfPostedEventResources"
+        except Exception as e:
+          info["outcome"][a] = type(e).__name__
+      if case.get("callers"):
+        info["outcome"] = {}
+        ths = [ao.Thread(target=attempt, args=(a,), name="caller%d" % a) for a in range(case["callers"])]
+        for t in ths:
+          t.start()
+        for t in ths:
+          t.join()
+      for a in range(0 if case.get("callers") else case["attempts"]):
         try:
           getattr(chart, "post_" + rj["kind"])(Event(signal=signals["VC"], payload=9000 + a),
                                                period=rj["period"], times=rj["times"], deferred=rj["deferred"])
@@ -109,7 +132,10 @@ class C31(Prop):
       raise PropertyViolation("thread %s died: %s: %s" % (name, type(e).__name__, e), "C31:thread-error")
     rj = case["rejected"]
     stats.case(case, rj["deferred"] is False,
-               ["cap_%d" % case["cap"], "rejected_deferred_%s" % rj["deferred"], "attempts_%d" % case["attempts"]])
+               ["cap_%d" % case["cap"], "rejected_deferred_%s" % rj["deferred"], "attempts_%d" % case["attempts"]] +
+               (["callers_at_once_%d" % case["callers"]] if case.get("callers") else []))
+    if case.get("callers"):
+      return self.judge_callers(case, info, stats)
     if any(r != "ActiveObjectOutOfPostedEventResources" for r in info["raised"]):
       raise PropertyViolation("a timed post beyond the limit of %d sources gave %s" % (
         case["cap"], info["raised"]), "C31:no-exception")
@@ -124,6 +150,29 @@ class C31(Prop):
       if got != want:
         raise PropertyViolation("tracked source %d posted at %s, expected %s" % (k, got, want),
                                 "C31:tracked-disturbed")
+
+
+  def judge_callers(self, case, info, stats):
+    """One slot was free and several threads asked at once: one of them got it, every other one
+    was refused, and no refused source ever posted."""
+    rj, out = case["rejected"], info["outcome"]
+    odd = [v for v in out.values() if v not in (None, "ActiveObjectOutOfPostedEventResources")]
+    accepted = sorted(a for a, v in out.items() if v is None)
+    if odd or len(out) != case["callers"] or len(accepted) != 1:
+      raise PropertyViolation("%d threads asked for a timed source at once with one slot free (limit %d): outcomes %s" % (
+        case["callers"], case["cap"], [out.get(a, "no answer") for a in range(case["callers"])]), "C31:no-exception")
+    fired = [p for p in info["posts"] if p["sig"] == "VC" and p["id"] - 9000 not in accepted]
+    if fired:
+      self.violation(stats, "%d threads asked for a timed source at once with one slot free; the refused source(s) (%s, period %s, "
+                     "deferred %s) posted anyway: %s (outcomes %s)" % (
+                       case["callers"], rj["kind"], rj["period"], rj["deferred"],
+                       [(p["id"], p["now"], p["inv"]) for p in fired], [out[a] for a in range(case["callers"])]),
+                     "C31:rejected-source-fires")
+    for k, src in enumerate(case["tracked"]):
+      got = [p["now"] for p in info["posts"] if p["sig"] == "VB" and p["id"] == k]
+      want = expected_instants(info["t0"], src["period"], src["times"], src["deferred"], info["horizon"])
+      if got != want:
+        raise PropertyViolation("tracked source %d posted at %s, expected %s" % (k, got, want), "C31:tracked-disturbed")
 
 
 PROP = C31
